@@ -3,5 +3,5 @@
 cd /repo && git diff --quiet || { echo "/repo dirty"; exit 2; }
 perl -0pi -e "$3" "$2"
 if git diff --quiet; then echo "MUTATION DID NOT CHANGE ANYTHING"; exit 2; fi
-cd /verif && ./check $1 | grep -E "VIOLATION|ANALYSIS-BROKEN|^  C" | cut -c1-260 | head -6
+cd /verif && NSTD_EVIDENCE_DIR=/var/tmp/nstd-verif-scratch-evidence ./check $1 | grep -E "VIOLATION|ANALYSIS-BROKEN|^  C" | cut -c1-260 | head -6
 git -C /repo checkout -- .
